@@ -227,8 +227,8 @@ for attr in ("width", "depth", "uint_maxval", "max_count", "num_reserved"):
     line = "            self.width != other.width\n            or " if attr == "width" else "            or self.%s != other.%s\n" % (attr, attr)
     add("guard-log16-%s" % attr, ["C15"], "countmin", G_LOG16, G_LOG16.replace(line, "            " if attr == "width" else ""), rules=["guard-set"])
     add("guard-log8-%s" % attr, ["C15"], "countmin", G_LOG8, G_LOG8.replace(line, "            " if attr == "width" else ""), rules=["guard-set"])
-add("guard-hll-seed", ["C15", "C02"], "hyperloglog", G_HLL, "        if self.p != other.p:", rules=["guard-set"])
-add("guard-hll-p", ["C15", "C02"], "hyperloglog", G_HLL, "        if self.seed != other.seed:", rules=["guard-set"])
+add("guard-hll-seed", ["C15"], "hyperloglog", G_HLL, "        if self.p != other.p:", rules=["guard-set"])
+add("guard-hll-p", ["C15"], "hyperloglog", G_HLL, "        if self.seed != other.seed:", rules=["guard-set"])
 add("guard-hh-maxkeylen", ["C15"], "heavyhitters", G_HH, G_HH.replace("            or self.max_key_len != other.max_key_len\n", ""), rules=["guard-set"])
 add("guard-hh-width", ["C15"], "heavyhitters", G_HH, G_HH.replace("            self.width != other.width\n            or ", "            "), rules=["guard-set"])
 add("guard-hh-depth", ["C15"], "heavyhitters", G_HH, G_HH.replace("            or self.depth != other.depth\n", ""), rules=["guard-set"])
